@@ -6,6 +6,7 @@
     Word sizes are passed explicitly: [mx] is the largest value of the type
     ([U64_MAX] for u64/usize, [U128_MAX] for u128, ...), [w] its width in bits. *)
 From Astria Require Export Base.Bounded.
+From Coq Require Export ZArith.
 
 Definition U8_MAX  : N := 255.
 Definition U16_MAX : N := 65535.
@@ -47,6 +48,46 @@ Definition truncate (w x : N) : N := x mod 2 ^ w.
 
 Definition is_some {A} (o : option A) : bool := match o with Some _ => true | None => false end.
 Definition unwrap_or {A} (o : option A) (d : A) : A := match o with Some a => a | None => d end.
+
+(** [Result<T, E>]: the error VALUE is not modelled.  A function returning [Result] becomes
+    [option (result T)]: [None] = panic, [Some RErr] = it returned [Err(_)], [Some (ROk v)] =
+    it returned [Ok(v)] -- an error return is never confused with a panic. *)
+Inductive result (T : Type) := ROk (v : T) | RErr.
+Arguments ROk {T} v.
+Arguments RErr {T}.
+(** [o.ok_or(e)], [o.ok_or_else(|| e)], [o.ok_or_eyre(msg)] *)
+Definition ok_or {T} (o : option T) : result T := match o with Some v => ROk v | None => RErr end.
+(** [r.unwrap()], [r.expect(msg)] *)
+Definition unwrap_res {T} (r : result T) : option T := match r with ROk v => Some v | RErr => None end.
+Definition is_ok {T} (r : result T) : bool := match r with ROk _ => true | RErr => false end.
+(** the model side usually writes an error-returning function as [option T] *)
+Definition res_of_opt {T} (o : option T) : result T := ok_or o.
+
+(** [i64::MAX] as an unsigned number: the largest [tendermint::block::Height] *)
+Definition I64_MAX : N := 9223372036854775807.
+(** [x.try_into()] / [T::try_from(x)] into a type whose largest value is [mx] (from an unsigned
+    type, so there is no lower bound to check) *)
+Definition try_into_ranged (mx x : N) : result N := if x <=? mx then ROk x else RErr.
+(** [tendermint::block::Height::increment] (tendermint-0.40.4 src/block/height.rs:76, not part
+    of the repository, transcribed by hand):
+    [Height::try_from(self.0.checked_add(1).expect("height overflow")).unwrap()] *)
+Definition height_increment (h : N) : option N :=
+  do h1 <- checked_add U64_MAX h 1;
+  unwrap_res (try_into_ranged I64_MAX h1).
+
+(** signed integers ([i128]) are [Z]; [mn]/[mx] the smallest/largest value of the type.
+    Rust's [/] and [%] truncate towards zero: [Z.quot]/[Z.rem]. *)
+Definition I128_MAX : Z := 170141183460469231731687303715884105727%Z.
+Definition I128_MIN : Z := (-170141183460469231731687303715884105728)%Z.
+Definition i_checked_add (mn mx a b : Z) : option Z :=
+  let s := (a + b)%Z in if ((mn <=? s) && (s <=? mx))%Z then Some s else None.
+Definition i_checked_sub (mn mx a b : Z) : option Z :=
+  let s := (a - b)%Z in if ((mn <=? s) && (s <=? mx))%Z then Some s else None.
+(** [None] for a zero divisor and for [MIN / -1] *)
+Definition i_checked_div (mn a b : Z) : option Z :=
+  if (b =? 0)%Z then None else if ((b =? -1) && (a =? mn))%Z then None else Some (Z.quot a b).
+Definition i_checked_rem (mn a b : Z) : option Z :=
+  if (b =? 0)%Z then None else if ((b =? -1) && (a =? mn))%Z then None else Some (Z.rem a b).
 
 (** elementary facts used by Kernels/KernelEq.v *)
 Lemma bind_Some {A B} (a : A) (f : A -> option B) : bind (Some a) f = f a.
